@@ -105,6 +105,22 @@ class Servlet(ABC):
     def children(self) -> list:
         raise NotImplementedError
 
+    def _stop_started_workers(self, q_in) -> None:
+        # Used by `ProcessServlet` and `ThreadServlet` when a worker fails to start:
+        # the workers that have been started are waiting on `q_in` and must not be left behind.
+        if self._workers:
+            q_in.put(None)
+            for w in self._workers:
+                w.join()
+            self._workers = []
+
+    @staticmethod
+    def _stop_started_servlets(servlets) -> None:
+        # Used by the compound servlets when a member fails to start.
+        for s in servlets:
+            if s._started:
+                s.stop()
+
     def _debug_info(self) -> dict:
         zz = []
         for ch in self.children:
@@ -225,7 +241,10 @@ class ProcessServlet(Servlet):
             p.start()
             name = q_out.get()
             if name is None:
-                p.join()  # this will raise exception b/c worker __init__ failed
+                try:
+                    p.join()  # this will raise exception b/c worker __init__ failed
+                finally:
+                    self._stop_started_workers(q_in)
             self._workers.append(p)
             logger.debug('   ... worker <%s> is ready', name)
 
@@ -343,7 +362,10 @@ class ThreadServlet(Servlet):
             w.start()
             name = q_out.get()
             if name is None:
-                w.join()  # this will raise exception b/c worker __init__ failed
+                try:
+                    w.join()  # this will raise exception b/c worker __init__ failed
+                finally:
+                    self._stop_started_workers(q_in)
             self._workers.append(w)
             logger.debug('   ... worker <%s> is ready', name)
 
@@ -432,7 +454,12 @@ class SequentialServlet(Servlet):
                 self._qs.append(q2)
             else:
                 q2 = q_out
-            s.start(q1, q2)
+            try:
+                s.start(q1, q2)
+            except BaseException:
+                self._stop_started_servlets(self._servlets[:i])
+                self._qs = []
+                raise
             q1 = q2
         self._q_in = q_in
         self._q_out = q_out
@@ -529,7 +556,12 @@ class EnsembleServlet(Servlet):
                 if s.output_queue_type == 'thread'
                 else _SimpleProcessQueue()
             )
-            s.start(q1, q2)
+            try:
+                s.start(q1, q2)
+            except BaseException:
+                self._stop_started_servlets(self._servlets)
+                self._reset()
+                raise
             self._qins.append(q1)
             self._qouts.append(q2)
         t = Thread(target=self._dequeue, name=f'{self.__class__.__name__}._dequeue')
@@ -703,7 +735,12 @@ class SwitchServlet(Servlet):
                 if s.input_queue_type == 'thread'
                 else _SimpleProcessQueue()
             )
-            s.start(q1, q_out)
+            try:
+                s.start(q1, q_out)
+            except BaseException:
+                self._stop_started_servlets(self._servlets)
+                self._reset()
+                raise
             self._qins.append(q1)
 
         self._thread_enqueue = Thread(
